@@ -762,7 +762,7 @@ pub fn run(ctx: &Ctx) {
     if !crate::pipeline::DRIVER_SRC {
         ctx.note("the driver's pure modules (preprocess.rs, error_helper.rs, print.rs) of the working tree do not compile stand-alone into the harness: in-process calls of preprocess() and of the print reader are replaced by stubs; the CLI parts decide for them");
     }
-    ctx.set_rule("(1) determinism: generated programs -- valid terminating ones and ones with 0-6 extra invalid statements at random top-level positions (jumps to 2-6 different undefined labels, the same undefined label twice, unknown data name, duplicate label, out-of-range constant), plain or with -i and a stdin script -- are each run 5 times in separate processes with the same input; stdout, stderr and exit status must be byte-identical. (2) a new machine is all zero except FLAGS=F000h, CS=FFFFh (checked on every worker before and after the other parts). (3) isolation: two proptest-generated instruction streams (all instruction classes, REP included) on two machines and two contexts SHARING ONE Interpreter object under a generated interleaving (switches also between the iterations of a REP), versus each stream alone on fresh objects: registers, whole memory, call stack and per-instruction outcomes must be identical. (4) parser statelessness: for Interpreter, DataParser, print reader and Preprocessor, the answer (result, registers, memory digest, counter, emitted lists and maps) to a probe text from a fresh object versus from an object that first processed 1-5 other texts, valid and invalid (C15's mutated texts). (5) 16 threads run private streams on private machines simultaneously, compared with the sequential results. Non-trivial = a program with >= 2 simultaneous errors, an interleaving with >= 10 switches, a parser history containing an error.");
+    ctx.set_rule("(1) determinism: generated programs -- valid terminating ones and ones with 0-6 extra invalid statements at random top-level positions (jumps to 2-6 different undefined labels, the same undefined label twice, unknown data name, duplicate label, out-of-range constant), plain or with -i and a stdin script -- are each run 5 times in separate processes with the same input; stdout, stderr and exit status must be byte-identical. (2) a new machine is all zero except FLAGS=F000h, CS=FFFFh (checked on every worker before and after the other parts). (3) isolation: two proptest-generated instruction streams (all instruction classes, REP included) on two machines and two contexts SHARING ONE Interpreter object under a generated interleaving (switches also between the iterations of a REP), versus each stream alone on fresh objects: registers, whole memory, call stack and per-instruction outcomes must be identical. (4) parser statelessness: for Interpreter, DataParser, print reader and Preprocessor, the answer (result, registers, memory digest, counter, emitted lists and maps) to a probe text from a fresh object versus from an object that first processed 1-5 other texts, valid and invalid (C15's mutated texts). (5) 16 threads run private streams on private machines simultaneously, compared with the sequential results. The two programs of an isolation case define the code labels t_0..t_2 at different places and jump to them (the outcome of every jump is logged). Non-trivial = a program with >= 2 simultaneous errors, an interleaving with >= 10 switches, a parser history containing an error.");
     ctx.assume("thread ids inside panic messages are not compared (they differ by design of the runtime); the OS scheduler is not controlled: part (5) is an execution, not an enumeration of schedules");
     ctx.set_exhaustive(false);
     let workers: Vec<Result<(), String>> = (0..16).into_par_iter().map(|_| check_new_vm()).collect();
